@@ -32,6 +32,20 @@ func (c *Ctx) statusMaskOf(fn *ssa.Function) (int64, bool) {
 		if !ok || len(ret.Results) != 1 {
 			return
 		}
+		// the test shared by the wrappers: `return t.statusHasAny(bits)` with a helper of the same shape
+		if hc, isCall := ret.Results[0].(*ssa.Call); isCall {
+			if g := hc.Call.StaticCallee(); g != nil && g != fn && core.InModule(g) && len(g.Blocks) > 0 {
+				if pm, okm := c.statusMaskParamOf(g); okm && pm < len(hc.Call.Args) {
+					if k, okk := core.ConstIntValue(hc.Call.Args[pm]); okk {
+						mask = k
+						found = true
+						return
+					}
+				}
+			}
+			bad = true
+			return
+		}
 		b, ok := ret.Results[0].(*ssa.BinOp)
 		if !ok || b.Op != token.NEQ || !core.IsConstInt(0)(b.Y) {
 			bad = true
@@ -65,6 +79,62 @@ func (c *Ctx) statusMaskOf(fn *ssa.Function) (int64, bool) {
 		found = true
 	})
 	return mask, found && !bad
+}
+
+// statusMaskParamOf: g returns `atomic.LoadInt32(&t.status) & <param> != 0`; the index of that
+// parameter (among g.Params, receiver included).
+func (c *Ctx) statusMaskParamOf(g *ssa.Function) (int, bool) {
+	status := c.E().topicField("status")
+	idx, ok := -1, true
+	n := 0
+	core.AllInstrs(g, func(in ssa.Instruction) {
+		ret, isRet := in.(*ssa.Return)
+		if !isRet || len(ret.Results) != 1 {
+			return
+		}
+		n++
+		b, isB := ret.Results[0].(*ssa.BinOp)
+		if !isB || b.Op != token.NEQ || !core.IsConstInt(0)(b.Y) {
+			ok = false
+			return
+		}
+		and, isAnd := b.X.(*ssa.BinOp)
+		if !isAnd || and.Op != token.AND {
+			ok = false
+			return
+		}
+		var load *ssa.Call
+		var other ssa.Value
+		if cl, isC := and.X.(*ssa.Call); isC {
+			load, other = cl, and.Y
+		} else if cl, isC := and.Y.(*ssa.Call); isC {
+			load, other = cl, and.X
+		}
+		if load == nil {
+			ok = false
+			return
+		}
+		f := core.CalleeOf(&load.Call)
+		if f == nil || f.FullName() != "sync/atomic.LoadInt32" {
+			ok = false
+			return
+		}
+		if fld, _ := core.FieldOfAddr(load.Call.Args[0]); fld != status {
+			ok = false
+			return
+		}
+		p, isP := core.Strip(other).(*ssa.Parameter)
+		if !isP {
+			ok = false
+			return
+		}
+		for i, q := range g.Params {
+			if q == p {
+				idx = i
+			}
+		}
+	})
+	return idx, ok && n > 0 && idx >= 0
 }
 
 func (c *Ctx) constInt(rel, name string) int64 {
